@@ -482,7 +482,7 @@ def model_nanos6(K, src):
 BODY_MARK = "<body>"
 
 
-def gen_trace(r, m, bare):
+def gen_trace(r, m, bare, tid_base=1000):
     """A valid trace by construction: returns (ncpu, threads{tid: [(clock, mcv, payload, jumbo)]}, description list).
     bare=False: tasks are paused/resumed only inside some other subsystem (as the runtimes do);
     bare=True: VTp/VTr may also happen with "Task: In body" on top of the subsystem stack."""
@@ -491,7 +491,7 @@ def gen_trace(r, m, bare):
     nth = r.range(1, min(ncpu + 2, 6))
     ths = []
     for t in range(nth):
-        ths.append({"tid": 1000 + t, "st": "new", "cpu": None, "ss": [], "tasks": [], "idle": "p", "evs": [], "n": 0})
+        ths.append({"tid": tid_base + t, "st": "new", "cpu": None, "ss": [], "tasks": [], "idle": "p", "evs": [], "n": 0})
     busy = {}            # physical cpu -> tid of its running thread
     clock = [r.range(1, 50)]
     types = []
@@ -719,13 +719,17 @@ def gen_trace(r, m, bare):
     return ncpu, threads, desc, nbare[0]
 
 
-def write_trace(d, m, ncpu, threads):
+def write_trace(d, m, ncpu, threads, more=()):
+    """more: further looms as (loom name, pid, ncpu, threads); their physical CPUs get their own phyids"""
     tr = trace.Trace()
-    for tid, evs in threads.items():
-        meta = trace.thread_meta(tid, 500, "n0", require={"ovni": "1.1.0", m.name: m.version},
-                                 cpus=[(i, i) for i in range(ncpu)])
-        meta.update(m.meta)
-        tr.add_thread("n0", 500, tid, meta, [trace.ev_bytes(mcv, clk, pl, jumbo=jb) for (clk, mcv, pl, jb) in evs])
+    phy0 = 0
+    for (loom, pid, nc, ths) in [("n0", 500, ncpu, threads)] + list(more):
+        for tid, evs in ths.items():
+            meta = trace.thread_meta(tid, pid, loom, require={"ovni": "1.1.0", m.name: m.version},
+                                     cpus=[(i, phy0 + i) for i in range(nc)])
+            meta.update(m.meta)
+            tr.add_thread(loom, pid, tid, meta, [trace.ev_bytes(mcv, clk, pl, jumbo=jb) for (clk, mcv, pl, jb) in evs])
+        phy0 += nc
     tr.write(d)
 
 
@@ -799,7 +803,19 @@ def check_e2e(chk, build, m, oracle, ncases):
         r = chk.rng.fork("e2e-%s-%d" % (m.name, k))
         bare = (k % 4 == 3)
         ncpu, threads, desc, nbare = gen_trace(r, m, bare)
-        cases.append({"k": k, "bare": bare, "ncpu": ncpu, "threads": threads, "desc": desc, "nbare": nbare})
+        cs = {"k": k, "bare": bare, "ncpu": ncpu, "threads": threads, "desc": desc, "nbare": nbare}
+        if k % 3 == 2:
+            # one or two more looms (nodes) with their own process, threads and CPUs: the breakdown rows span the
+            # physical CPUs of all looms
+            more = []
+            for j in range(r.range(1, 2)):
+                nc2, th2, desc2, nb2 = gen_trace(r.fork("loom%d" % j), m, bare, tid_base=2000 + 1000 * j)
+                if th2:
+                    more.append(("n%d" % (j + 1), 501 + j, nc2, th2))
+                    cs["desc"] = cs["desc"] + ["loom n%d: " % (j + 1) + x for x in desc2]
+                    cs["nbare"] += nb2
+            cs["more"] = more
+        cases.append(cs)
     # corpus first (corpus/C20/*.json): the history OHx ; VTx ; VTp with its mirror image OHp ; OHr ; VTr for each
     # model (regression cases of the defect repaired by /repo commit bca364a; C20_wiring_refuted_old on the model
     # of the old code), and a clean two-CPU case.  All of them expect verdict ok.
@@ -822,7 +838,7 @@ def check_e2e(chk, build, m, oracle, ncases):
     try:
         def run_case(cs):
             d = os.path.join(wd, "%s-%s" % (m.name, cs["k"]))
-            write_trace(d, m, cs["ncpu"], cs["threads"])
+            write_trace(d, m, cs["ncpu"], cs["threads"], cs.get("more", ()))
             rc, o, e = trace.run_tool(build, "ovniemu", ["-b"], d)
             res = None
             if rc == 0:
@@ -854,8 +870,10 @@ def check_e2e(chk, build, m, oracle, ncases):
         chk.count("e2e-%s:instants-checked" % m.name, nchecked)
         if cs["nbare"]:
             chk.count("e2e-%s:traces-with-task-pause-in-body" % m.name)
+        chk.count("e2e-%s:looms:%d" % (m.name, 1 + len(cs.get("more", ()))))
         replay = {"model": m.name, "ncpu": cs["ncpu"], "how": "write the events below as an ovni trace (one stream per tid, pid 500, loom n0, "
-                  "%d physical CPUs, require %s %s) and run `ovniemu -b`; compare %s with cpu.prv" % (cs["ncpu"], m.name, m.version, m.prvfile),
+                  "%d physical CPUs, require %s %s; further looms n1.. with pid 501.. as listed) and run `ovniemu -b`; compare %s with cpu.prv" % (cs["ncpu"], m.name, m.version, m.prvfile),
+                  "more_looms(name pid ncpu tids)": [(l, p_, nc, sorted(t)) for (l, p_, nc, t) in cs.get("more", ())],
                   "events(clock tid mcv)": cs["desc"], "detail": detail}
         if verdict == "ok":
             continue
